@@ -8,7 +8,7 @@ import Mathlib.Tactic.NormNum
 # Helper lemmas for C12: the `RealLike` cone terms at `ℝ`; the 2-D θ-cone
 -/
 namespace VOPy.ConeFormulas
-open VOPy Real
+open VOPy VOPy.ConeOrd Real
 
 /-- the branch test of `get_2d_w` at `ℝ` -/
 noncomputable instance : LeB ℝ := ⟨fun a b => decide (a ≤ b)⟩
